@@ -14,7 +14,7 @@
 EXTENDS TreeOps, Gen_Names, Gen_Adjust, Defects
 TcDefectNames == {"tc-special-set", "tc-dialog-no-close-p", "tc-endbr-keeps-frameset-ok", "tc-afterbody-space",
                   "tc-command-void-in-head", "tc-chars-token-granularity", "tc-textarea-stays-in-body",
-                  "tc-cell-caption-ws-base", "tc-intable-other-drops-reprocess"}
+                  "tc-cell-caption-ws-base", "tc-intable-other-drops-reprocess", "tc-frameset-pop-name-only"}
 Std(d) == d \notin KnownDefects
 
 \* ---------------------------------------------------------------------------------------------
@@ -323,7 +323,9 @@ StartTag(ps, mode, tok) ==
         ELSE IF nm = N_frameset THEN
             (IF Len(ps.open) = 1 \/ ps.nodes[ps.open[2]].n # N_body \/ ~ps.fok THEN NoRe(ps)
              ELSE LET p1 == [ps EXCEPT !.nodes = Detach(@, ps.open[2])]
-                      p2 == PopWhileNotNamed(p1, {N_html})
+                      \* html5lib pops until an element NAMED html is on top: a foreign element called html stops it early
+                      p2 == IF Std("tc-frameset-pop-name-only") THEN [p1 EXCEPT !.open = <<p1.open[1]>>]
+                            ELSE PopWhileNotNamed(p1, {N_html})
                   IN NoRe([InsertHtml(p2, tok) EXCEPT !.mode = "inFrameset"]))
         ELSE IF nm \in ClosePNames THEN NoRe(InsertHtml(CloseP(ps), tok))
         ELSE IF nm \in Heading THEN
